@@ -26,9 +26,9 @@ def obs_invariants():
 PLAN = {
     'C01': {'gated': (['basic', 'ctl', 'cancel', 'pool', 'batch', 'barrier', ('tune', 2), 'reject'], 80, 900), 'free': (['basic', 'ctl', 'pool'], 64, 1200), 'model': ['MC_core']},
     'C02': {'gated': (['ctl', 'pool', 'basic', 'barrier', 'bind2'], 80, 750), 'free': (['ctl', 'pool'], 64, 1200), 'model': ['MC_core']},
-    'C03': {'gated': (['basic', 'ctl', 'cancel', 'pool', 'barrier', 'batch', ('tune', 4)], 80, 900), 'free': (['basic', 'ctl', 'pool', 'cancel'], 64, 1200), 'model': ['MC_core']},
+    'C03': {'gated': (['basic', 'ctl', 'cancel', 'pool', 'barrier', 'batch', ('tune', 4), 'stop2'], 88, 1000), 'free': (['basic', 'ctl', 'pool', 'cancel'], 64, 1200), 'model': ['MC_core']},
     'C05': {'gated': (['handle', 'basic', 'cancel', 'batch'], 64, 750), 'free': (['handle', 'batch'], 64, 1200), 'model': ['MC_core']},
-    'C06': {'gated': (['barrier', 'ctl', 'cancel'], 64, 750), 'free': (['barrier', 'ctl'], 64, 1200), 'model': ['MC_core']},
+    'C06': {'gated': (['barrier', 'ctl', 'cancel', 'stop2'], 72, 800), 'free': (['barrier', 'ctl'], 64, 1200), 'model': ['MC_core']},
     'C07': {'gated': (['handle', 'basic', 'batch'], 64, 750), 'free': (['handle', 'batch'], 64, 1200), 'model': []},
     'C08': {'gated': ([('batch', 5), 'reject'], 168, 1600), 'free': (['batch'], 96, 2400), 'model': []},
     'C09': {'gated': (['ctl', 'barrier'], 64, 750), 'free': (['ctl'], 64, 1200), 'model': ['MC_core']},
@@ -37,11 +37,11 @@ PLAN = {
     'C11': {'gated': ([('adapter', 3), 'distbind'], 72, 700), 'free': (['adapter'], 48, 800), 'model': [], 'crash': (40, 600)},
     'C12': {'gated': (['adapter'], 60, 625), 'free': (['adapter'], 48, 800), 'model': []},
     'C13': {'gated': (['dist', 'adapter', 'distbind'], 60, 625), 'free': (['dist'], 64, 1000), 'model': []},
-    'C14': {'gated': (['life'], 48, 375), 'free': (['life'], 48, 600), 'model': [], 'life_exhaustive': (3, 4)},
+    'C14': {'gated': ([('life', 3), 'stop2'], 56, 450), 'free': (['life'], 48, 600), 'model': [], 'life_exhaustive': (3, 4)},
     'C15': {'gated': (['multi', 'multim'], 80, 750), 'free': (['multi'], 32, 600), 'model': ['MC_multi']},
     'C16': {'gated': (['basic', 'handle', 'cancel', 'batch'], 64, 750), 'free': (['basic', 'handle'], 96, 2400), 'model': ['MC_core']},
     'C17': {'gated': (['basic', 'multi', 'cancel', 'ctl', 'reject', 'multim'], 84, 900), 'free': (['basic', 'multi'], 64, 1200), 'model': []},
-    'C18': {'gated': (['pool', 'ctl', ('tune', 2)], 64, 750), 'free': (['pool'], 64, 1200), 'model': []},
+    'C18': {'gated': (['pool', 'ctl', ('tune', 2), 'stop2'], 70, 800), 'free': (['pool'], 64, 1200), 'model': []},
 }
 
 
@@ -239,7 +239,7 @@ def replay_prog(prog, choices):
 
 WINDOW_AFTER = {'PauseAndWait', 'Stop', 'WaitAndStop', 'Pause', 'WUF', 'Wait', 'Result', 'Close', 'Purge', 'BatchWait', 'BatchRead', 'TunePool',
                 'QClose', 'Drain', 'Restart', 'Resume'}
-RACE_FAMS = ['tune', 'bind2', 'distbind', 'basic', 'ctl', 'cancel', 'batch', 'handle', 'pool', 'multi', 'dist', 'adapter', 'life', 'barrier']
+RACE_FAMS = ['stop2', 'tune', 'bind2', 'distbind', 'basic', 'ctl', 'cancel', 'batch', 'handle', 'pool', 'multi', 'dist', 'adapter', 'life', 'barrier']
 
 
 def parse_races(output):
@@ -527,6 +527,10 @@ def check_property(pid, tier, seed):
             eps += reps
             crashes += rcr
             cov['crash_points'] = {'cut_executions': len([e for e in eps if e['end']['result'] == 'cut']), 'recoveries': len(reps)}
+        m1eps = [e for e in eps if e['prog']['family'].startswith('m1:')]
+        if m1eps and isinstance(cov.get('m1'), dict):
+            cov['m1']['_replay'] = {'episodes': len(m1eps), 'choices': sum(len(e['prog']['sched'].get('choices') or []) for e in m1eps),
+                                    'choices_not_followed': sum((e['end'] or {}).get('diverged', 0) or 0 for e in m1eps)}
         mark('gated episodes done')
         feps, fcrashes = vlib.run_episodes(binary, free, scratch, gomaxprocs=0, tag='f')
         mark('free episodes done')
